@@ -116,6 +116,31 @@ def _wrap(a):
     return a
 
 
+def _int_store(v):
+    """value stored into an integer array: NumPy truncates towards zero.  Constants are truncated; a symbolic value
+    cannot be truncated symbolically, so the store is recorded as a failing domain obligation (the native replay shows
+    the truncation)"""
+    def one(x):
+        if x.is_const():
+            return SReal.lift(int(x.const()))
+        sc.CTX.domain.append(('int-store', len(sc.CTX.pc), sc.SBool('const', False), len(sc.CTX.facts)))
+        return x
+    if isinstance(v, SReal):
+        return one(v)
+    out = _np.empty(v.shape, dtype=object)
+    for idx in _np.ndindex(v.shape): out[idx] = one(v[idx])
+    return out
+
+
+def _all_ints(x):
+    if isinstance(x, bool): return False
+    if isinstance(x, (int, _np.integer)): return True
+    if isinstance(x, SArray): return x.kind == 'i'
+    if isinstance(x, _np.ndarray): return x.dtype.kind in 'iu'
+    if isinstance(x, (list, tuple)): return len(x) > 0 and _b.all(_all_ints(e) for e in x)
+    return False
+
+
 def _idx(i):
     if isinstance(i, SReal):
         if i.is_const() and i.const().denominator == 1: return int(i.const())
@@ -131,22 +156,31 @@ def _idx(i):
 
 class SArray(SArrayBase):
     __array_priority__ = 1000
-    def __init__(self, a): self._a = a
+    def __init__(self, a, kind='f'):
+        self._a = a
+        self.kind = kind          # 'f' float array, 'i' integer array (stores into it truncate in NumPy)
     shape = property(lambda s: s._a.shape)
     ndim = property(lambda s: s._a.ndim)
     size = property(lambda s: s._a.size)
-    dtype = property(lambda s: _DType('f'))
-    T = property(lambda s: SArray(s._a.T))
+    dtype = property(lambda s: _DType(s.kind))
+    T = property(lambda s: SArray(s._a.T, s.kind))
     flat = property(lambda s: iter(s._a.flat))
-    def transpose(self, *a): return SArray(self._a.transpose(*a))
+    def transpose(self, *a): return SArray(self._a.transpose(*a), self.kind)
     def __len__(self): return len(self._a)
-    def __iter__(self): return (_wrap(x) for x in self._a)
-    def __getitem__(self, i): return _wrap(self._a[_idx(i)])
+    def __getitem__(self, i):
+        r = self._a[_idx(i)]
+        if isinstance(r, _np.ndarray) and r.ndim > 0:
+            return SArray(r, self.kind)
+        return _wrap(r)
+    def __iter__(self):
+        return (SArray(x, self.kind) if isinstance(x, _np.ndarray) and x.ndim > 0 else _wrap(x) for x in self._a)
     def __setitem__(self, i, v):
         i = _idx(i)
         if not isinstance(v, SReal):
             v = _to_obj(v)
             if v.ndim == 0: v = v[()]
+        if self.kind == 'i':
+            v = _int_store(v)
         self._a[i] = v
     def _bin(self, o, f):
         if isinstance(o, (str, type(None), dict)): return NotImplemented
@@ -204,12 +238,15 @@ class SArray(SArrayBase):
     def __float__(s):
         if s._a.size == 1: return float(s._a.flat[0])
         raise TypeError('only length-1 arrays can be converted to Python scalars')
-    def flatten(s, order='C'): return SArray(s._a.flatten(order))
-    def ravel(s): return SArray(s._a.ravel())
-    def reshape(s, *shape, **kw): return SArray(s._a.reshape(*shape, **kw))
+    def flatten(s, order='C'): return SArray(s._a.flatten(order), s.kind)
+    def ravel(s): return SArray(s._a.ravel(), s.kind)
+    def reshape(s, *shape, **kw): return SArray(s._a.reshape(*shape, **kw), s.kind)
     def squeeze(s, axis=None): return _wrap(s._a.squeeze(axis))
-    def astype(s, dt, **kw): return SArray(s._a.copy())
-    def copy(s): return SArray(s._a.copy())
+    def astype(s, dt, **kw):
+        if dt in (int, int64, 'int', 'int64'):
+            return SArray(_int_store(s._a.copy()), 'i')
+        return SArray(s._a.copy())
+    def copy(s): return SArray(s._a.copy(), s.kind)
     def diagonal(s): return SArray(s._a.diagonal().copy())
     def dot(s, o): return dot(s, o)
     def conj(s): return s
@@ -276,7 +313,8 @@ def array(x, dtype=None, copy=True, ndmin=0):
     a = _to_obj(x)
     a = a.copy()
     while a.ndim < ndmin: a = a[None]
-    return SArray(a)
+    kind = 'i' if (dtype in (int, int64, 'int', 'int64') or (dtype is None and _all_ints(x))) else 'f'
+    return SArray(a, kind)
 def asarray(x, dtype=None):
     if isinstance(x, SArray): return x
     return array(x)
@@ -287,7 +325,13 @@ def ones(shape, dtype=None):
 def empty(shape, dtype=None): return zeros(shape)
 def full(shape, v, dtype=None):
     a = _np.empty(shape, dtype=object); a.fill(_lift_el(v)); return SArray(a)
-def zeros_like(a): return zeros(_to_obj(a).shape)
+def zeros_like(a, dtype=None):
+    r = zeros(_to_obj(a).shape); r.kind = getattr(a, 'kind', 'f') if dtype is None else ('i' if dtype in (int, int64) else 'f'); return r
+def empty_like(a, dtype=None): return zeros_like(a, dtype)
+def ones_like(a, dtype=None):
+    r = ones(_to_obj(a).shape); r.kind = getattr(a, 'kind', 'f') if dtype is None else ('i' if dtype in (int, int64) else 'f'); return r
+def full_like(a, v, dtype=None):
+    r = full(_to_obj(a).shape, v); r.kind = getattr(a, 'kind', 'f') if dtype is None else ('i' if dtype in (int, int64) else 'f'); return r
 def eye(n, m=None, dtype=None):
     a = zeros((n, m or n))
     for i in range(min(n, m or n)): a._a[i, i] = SReal.lift(1)
